@@ -27,6 +27,17 @@ Definition cfg_wf (c : config_consts) (g : cfg) : bool :=
 Definition is_string (r : opt_row) : bool := match row_type r with TString => true | _ => false end.
 Definition uses_cont (c : config_consts) (v : list byte) : bool := conf_cont c && has_inline (ini_inline_comment c) false v.
 
+(** [conf_line] with the parser's own whitespace set in the continuation test (equal to [conf_line] when [config_consts_ok]) *)
+Definition conf_line_std (c : config_consts) (r : opt_row) (g : cfg) : list byte :=
+  let v := render_option c (row_render r) g in
+  match row_type r with
+  | TString =>
+    if uses_cont c v then row_name r ++ conf_cont_sep c ++ v ++ [NL]
+    else if conf_quote c then row_name r ++ conf_assign c ++ [DQ] ++ v ++ [DQ; NL]
+    else row_name r ++ conf_assign c ++ v ++ [NL]
+  | _ => row_name r ++ conf_assign c ++ v ++ [NL]
+  end.
+
 (** every physical line of the listing, with its newline, fits the fgets buffer of the parser *)
 Definition row_fits (c : config_consts) (g : cfg) (r : opt_row) : bool :=
   let v := render_option c (row_render r) g in
